@@ -17,13 +17,18 @@ class C05(ModelCheck):
             'between the tap in front of roll and the tap at the head of its inner pipeline: items, creation event, close event, close order; '
             'and the demux from the tail tap to the output. non-trivial: a roll whose parent lifetime saw >= 3 items; distinct = distinct (program, schedule)')
     assumptions = ['interleaving of the *items* of overlapping windows inside one source event is not constrained (text is silent)']
-    probe_names = ('ring_wrapped>=2', 'partial>=2_at_completion', 'stride>window', 'len<window', 'len0', 'nested_roll', 'under_group_by')
+    probe_names = ('window>=257_filled', 'ring_wrapped>=2', 'partial>=2_at_completion', 'stride>window', 'len<window', 'len0', 'nested_roll', 'under_group_by')
 
     def gen_program(self, rng, tier):
         g = Gen(rng, weights=self.weights, max_nest=2, small=(tier == 'quick'))
+        from rxsim import program
         hi = 8 if tier == 'quick' else 16
-        w = rng.randint(1, hi)
-        s = rng.choice([1, 1, 2, rng.randint(1, hi), w, w + 1, max(1, w - 1)])
+        if program.SCALE[0]:
+            w = rng.choice([256, 257, 300])
+            s = rng.choice([64, 100, 257, 300, 301, w, w + 1])
+        else:
+            w = rng.randint(1, hi)
+            s = rng.choice([1, 1, 2, rng.randint(1, hi), w, w + 1, max(1, w - 1)])
         inner = g.pipeline(St('rec'), Flags(deny=('time_split', 'progress')), rng.choice([0, 1, 1]), rng.choice([1, 1, 2]))
         node = {'op': 'roll', 'window': w, 'stride': s, 'inner': inner}
         shape = rng.random()
@@ -31,14 +36,11 @@ class C05(ModelCheck):
             return [node]
         if shape < 0.7:
             return [{'op': 'group_by', 'key': rng.choice(['rk', 'rk_big', 'rk_tup']), 'inner': [node]}]
+        if program.SCALE[0]:
+            return [node]
         if shape < 0.85:
             return [{'op': 'roll', 'window': rng.randint(1, 5), 'stride': rng.randint(1, 5), 'inner': [node]}]
         return [{'op': 'split', 'key': rng.choice(['rv_mod3', 'rn_div3', 'rv_div2big']), 'inner': [node]}]
-
-    def sizes(self, rng, tier):
-        if tier == 'quick':
-            return rng.choice([1, 1, 2, 3]), rng.choice([4, 12, 30, 60])
-        return rng.choice([1, 2, 3, 5, 8]), rng.choice([8, 30, 60, 150])
 
     def probe(self, case, ctx, out):
         ModelCheck.probe(self, case, ctx, out)
@@ -59,6 +61,8 @@ class C05(ModelCheck):
                 p['partial>=2_at_completion'] += 1
             if s > w:
                 p['stride>window'] += 1
+            if w >= 257 and longest >= w:
+                p['window>=257_filled'] += 1
             if 0 < longest < w:
                 p['len<window'] += 1
         if n == 0:
